@@ -200,6 +200,7 @@ func firstDiffPath(a, b any) string {
 // rich plan generator (fully defaulted, ready for Vault.Create)
 
 type richGen struct {
+	sec bool
 	r   randLike
 	n   int
 	pre string
@@ -266,7 +267,15 @@ func (g *richGen) action(check bool, st workflow.Status) *workflow.Action {
 	ptr := g.r.IntN(3) == 0
 	a := &workflow.Action{ID: workflow.NewV7(), Key: g.key(), Name: fmt.Sprintf("%sa%d", g.pre, g.n), Descr: fmt.Sprintf("descr %d", g.n),
 		Timeout: time.Duration(5+g.r.IntN(100)) * time.Second, Retries: g.r.IntN(4), State: g.state(st)}
+	sec := !ptr && g.sec && g.r.IntN(3) == 0
 	switch {
+	case sec:
+		a.Plugin = "sact"
+		if check {
+			a.Plugin = "schk"
+		}
+		a.Req = SecReq{T: a.Name, Token: "tok-" + a.Name, Nested: &SecInner{Name: "n", Pass: "pw-" + a.Name},
+			List: []SecInner{{Name: "l", Pass: "pl-" + a.Name}}, Opts: map[string]*SecInner{"k": {Name: "m", Pass: "pm-" + a.Name}}}
 	case ptr && check:
 		a.Plugin, a.Req = "pchk", &PReq{T: a.Name, Opts: map[string]int{"x": g.n}}
 	case ptr:
